@@ -5,14 +5,21 @@
 package comp
 
 import (
+	"bytes"
 	"fmt"
+	"runtime"
+	"runtime/debug"
 	"sort"
 	"strings"
+	"sync/atomic"
+	"time"
 
 	"github.com/huderlem/poryscript/emitter"
 	"github.com/huderlem/poryscript/lexer"
 	"github.com/huderlem/poryscript/parser"
 	"github.com/huderlem/poryscript/simhook"
+
+	"verifsim/internal/rng"
 )
 
 // AutoVar mirrors one entry of command_config.json.
@@ -57,7 +64,8 @@ type Result struct {
 	MaxDepth   int      `json:"max_depth"`
 	DiskReads  int      `json:"disk_reads"`
 	Visits     int      `json:"map_visits"`
-	BothOrNone string   `json:"both_or_none,omitempty"` // API contract breach: (nil,nil) or (value,err)
+	BothOrNone string   `json:"both_or_none,omitempty"`      // API contract breach: (nil,nil) or (value,err)
+	Leaked     int      `json:"leaked_goroutines,omitempty"` // goroutines started by the call and still alive after it returned
 }
 
 // Key is a canonical digest string of what the caller of the API observes.
@@ -116,7 +124,148 @@ type Limits struct {
 // Compile runs one compilation. It never panics: a panic of the compiler is recovered
 // (as an embedder would) and reported in Result.Panic; a tripped progress budget in
 // Result.Budget.
-func Compile(src string, o *Options, lim Limits, sh *Shared) (res Result) {
+func Compile(src string, o *Options, lim Limits, sh *Shared) Result {
+	if simhook.GoSites == 0 {
+		// the tree contains no go statement: the compiler runs on the caller's goroutine
+		return compile1(src, o, lim, sh)
+	}
+	return compileWatched(src, o, lim, sh)
+}
+
+// compileWatched is used when the tree starts goroutines. Which of them runs next is the
+// Go scheduler's decision (the simulator does not own it - DESIGN.md 13.8); what the
+// harness adds is: a panic / tripped budget inside a goroutine is reported like one on
+// the main path (simhook.GoExit), a call whose goroutines are all blocked for good is
+// reported as a hang instead of stalling the worker, and goroutines that outlive the
+// call are counted.
+func compileWatched(src string, o *Options, lim Limits, sh *Shared) Result {
+	// One processor, garbage collection off for the duration of the call, and hand-overs only
+	// where the seeded yield function says so (plus a forced one every 1024 ticks, so that the
+	// runtime's own time-slice preemption never triggers): the interleaving of the compiler's
+	// goroutines is then a function of SchedSeed and the input - as repeatable as the Go run
+	// queue allows without a scheduler of our own.
+	prevProcs := runtime.GOMAXPROCS(1)
+	prevGC := debug.SetGCPercent(-1)
+	ss := rng.H(SchedSeed, rng.HashStr(src), boolWord(o.Optimize), boolWord(o.Lint))
+	den := []uint64{0, 1, 2, 8, 64, 512}[ss%6]
+	simhook.YieldFn = func(tick int64) bool {
+		if tick%1024 == 0 {
+			return true
+		}
+		return den != 0 && rng.H(ss, uint64(tick))%den == 0
+	}
+	defer func() {
+		simhook.YieldFn = nil
+		debug.SetGCPercent(prevGC)
+		runtime.GOMAXPROCS(prevProcs)
+	}()
+	before := runtime.NumGoroutine()
+	done := make(chan Result, 1)
+	var gid int64
+	go func() {
+		atomic.StoreInt64(&gid, goID())
+		done <- compile1(src, o, lim, sh)
+	}()
+	var res Result
+	t := time.NewTimer(stallSample)
+	last, still := int64(-1), 0
+wait:
+	for {
+		select {
+		case res = <-done:
+			t.Stop()
+			break wait
+		case <-t.C:
+			cur := atomic.LoadInt64(&simhook.Ticks)
+			if cur == last && blockedForGood(atomic.LoadInt64(&gid)) {
+				still++
+			} else {
+				still = 0
+			}
+			last = cur
+			if still >= 4 {
+				// no loop iteration anywhere for 4 samples and the calling goroutine is parked on a
+				// channel / WaitGroup / mutex: nothing is left that could wake it
+				res = Result{Budget: "deadlock", Ticks: cur}
+				simhook.TickBudget = 0
+				simhook.DepthBudget = 0
+				return res
+			}
+			t.Reset(stallSample)
+		}
+	}
+	if r := simhook.TakeGoFailure(); r != nil && res.Panic == "" && res.Budget == "" {
+		if b, ok := r.(simhook.BudgetExceeded); ok {
+			res.Budget = b.Kind
+		} else {
+			res.Panic = "in a goroutine started by the compiler: " + fmt.Sprint(r)
+		}
+		res.HasOut = false
+		res.Out = ""
+		res.Err = nil
+	}
+	// goroutines that outlive the call (a short grace lets finished ones exit)
+	n := runtime.NumGoroutine()
+	for i := 0; i < 200 && n > before; i++ {
+		time.Sleep(100 * time.Microsecond)
+		n = runtime.NumGoroutine()
+	}
+	if n > before && res.Budget == "" && res.Panic == "" {
+		res.Leaked = n - before
+	}
+	return res
+}
+
+// SchedSeed seeds the yield decisions of compileWatched (set per run by the engines, and
+// from the replay file on replay).
+var SchedSeed uint64
+
+func boolWord(b bool) uint64 {
+	if b {
+		return 1
+	}
+	return 0
+}
+
+const stallSample = 500 * time.Millisecond
+
+// goID is the id of the calling goroutine (from its stack header).
+func goID() int64 {
+	var buf [64]byte
+	b := buf[:runtime.Stack(buf[:], false)]
+	var id int64
+	fmt.Sscanf(string(b), "goroutine %d ", &id)
+	return id
+}
+
+// blockedForGood reports whether goroutine id is parked in a channel operation, select or
+// a sync primitive (not running, runnable or in a system call).
+func blockedForGood(id int64) bool {
+	if id == 0 {
+		return false
+	}
+	buf := make([]byte, 1<<20)
+	buf = buf[:runtime.Stack(buf, true)]
+	head := []byte(fmt.Sprintf("goroutine %d [", id))
+	i := bytes.Index(buf, head)
+	if i < 0 {
+		return false
+	}
+	rest := buf[i+len(head):]
+	j := bytes.IndexByte(rest, ']')
+	if j < 0 {
+		return false
+	}
+	state := string(rest[:j])
+	for _, p := range []string{"chan send", "chan receive", "select", "semacquire", "sync."} {
+		if strings.HasPrefix(state, p) {
+			return true
+		}
+	}
+	return false
+}
+
+func compile1(src string, o *Options, lim Limits, sh *Shared) (res Result) {
 	simhook.Reset()
 	simhook.TickBudget = lim.Ticks
 	simhook.DepthBudget = lim.Depth
